@@ -279,7 +279,50 @@ func runC16(r *R) {
 				}
 			}
 		}
-		r.Check(okUnlock, "C16-R5", fn, "unlock Locked entries of the tail", fn.Pos(), "every Locked over-quota entry is unlocked", "over-quota containers stay locked")
+		// every Locked entry: from the State==Locked edge, the loop's back edge is unreachable without the Unlock call
+		for _, c := range CallsMatching(fn, func(n string, c *ssa.CallCommon) bool { return bareName(n) == "Unlock" && c.IsInvoke() }) {
+			hdr := loopHeaderOf(c.Block())
+			if hdr == nil || !strings.Contains(Canon(CallArgs(c.Common())[0]), "Container.UUID") {
+				continue
+			}
+			// is this the tail loop (not the main start loop)? the main loop contains StartContainer
+			isMain := false
+			for b := range loopBody(hdr) {
+				for _, in := range b.Instrs {
+					if ci, ok := in.(ssa.CallInstruction); ok && bareName(CalleeName(ci.Common())) == "StartContainer" {
+						isMain = true
+					}
+				}
+			}
+			if isMain {
+				continue
+			}
+			lockedEdges, _ := IfEdges(fn, EqC("ctr.State == Locked", CanonHas("Container.State"), ConstStrVP("Locked")).Match)
+			for e := range lockedEdges {
+				if !loopBody(hdr)[e.From] {
+					continue
+				}
+				start := e.From.Succs[e.Succ]
+				// can we get back to the loop header from `start` without executing the Unlock?
+				bypass := false
+				walk(entryNodes(start), nil, func(n wnode) bool {
+					if n.b == hdr {
+						bypass = true
+						return false
+					}
+					for _, in := range n.b.Instrs {
+						if in == c.(ssa.Instruction) {
+							return false
+						}
+					}
+					return true
+				})
+				if bypass {
+					okUnlock = false
+				}
+			}
+		}
+		r.Check(okUnlock, "C16-R5", fn, "unlock Locked entries of the tail", fn.Pos(), "every Locked over-quota entry is unlocked, unconditionally", "an over-quota Locked container can keep its lock (and a worker) while a higher-priority container was unlocked: lower priority overtakes")
 	}
 }
 
